@@ -8,7 +8,16 @@ recurs on many paths; DIV/MUL on two symbolic operands are abstracted by halmos 
 f_evm_bvmul_256), which makes paths that are feasible for the branching solver but unsatisfiable
 after refinement -- these are the queries whose cores populate the cache.
 
-Child mode:  python -m harness.props.C16_e2e --child <project> <0|1> <out.json>
+A leaf may also be STUCK ('J': JUMP to a symbolic destination -> halmos cannot continue the path): run_test
+then poses the path's feasibility query AS IS (un-refined) -- the consumer of Model/CacheTestModel.v that must
+not be answered from the cache, because the cache holds cores that are unsat only after refinement.
+
+In `sync` mode the child makes the solver answer every assertion query (and its callback run) before the engine
+takes the next path -- one of the legal interleavings, the one in which the cache is as full as it can be when
+a later path is looked up; the run is then a sequential history and is compared, consumer by consumer, with
+the extracted test_run of the model (entry c16_test) fed with the solver replies the implementation saw.
+
+Child mode:  python -m harness.props.C16_e2e --child <project> <0|1> <out.json> <sync 0|1>
 """
 import json
 import os
@@ -18,14 +27,15 @@ import tempfile
 from concurrent.futures import ThreadPoolExecutor
 
 M256 = (1 << 256) - 1
+NPROBE = 3000      # fresh terms allocated per probe of z3's id free list
 
-OPS = dict(STOP=0x00, ADD=0x01, MUL=0x02, DIV=0x04, LT=0x10, GT=0x11, EQ=0x14, ISZERO=0x15, AND=0x16, SHR=0x1C,
-           CALLDATALOAD=0x35, CODECOPY=0x39, POP=0x50, MSTORE=0x52, JUMP=0x56, JUMPI=0x57, JUMPDEST=0x5B, PUSH0=0x5F,
-           DUP1=0x80, RETURN=0xF3, REVERT=0xFD)
+OPS = dict(STOP=0x00, ADD=0x01, MUL=0x02, DIV=0x04, LT=0x10, GT=0x11, EQ=0x14, ISZERO=0x15, AND=0x16, SHL=0x1B, SHR=0x1C,
+           CALLDATALOAD=0x35, CODECOPY=0x39, POP=0x50, MLOAD=0x51, MSTORE=0x52, SLOAD=0x54, SSTORE=0x55, JUMP=0x56, JUMPI=0x57,
+           GAS=0x5A, JUMPDEST=0x5B, PUSH0=0x5F, DUP1=0x80, CREATE=0xF0, RETURN=0xF3, STATICCALL=0xFA, REVERT=0xFD)
 
 
 def asm(items):
-    """two-pass assembler: ('label', n) -> JUMPDEST, ('ref', n) -> PUSH2 addr, ('push', nbytes, v), mnemonic"""
+    """two-pass assembler: ('label', n) -> JUMPDEST, ('ref', n) -> PUSH2 addr, ('push', nbytes, v), ('raw', bytes), mnemonic"""
     pos, labels = 0, {}
     for it in items:
         if isinstance(it, tuple) and it[0] == "label":
@@ -35,6 +45,8 @@ def asm(items):
             pos += 3
         elif isinstance(it, tuple) and it[0] == "push":
             pos += 1 + it[1]
+        elif isinstance(it, tuple) and it[0] == "raw":
+            pos += len(it[1])
         else:
             pos += 1
     out = b""
@@ -45,13 +57,17 @@ def asm(items):
             out += bytes([0x61]) + labels[it[1]].to_bytes(2, "big")
         elif isinstance(it, tuple) and it[0] == "push":
             out += bytes([0x5F + it[1]]) + it[2].to_bytes(it[1], "big")
+        elif isinstance(it, tuple) and it[0] == "raw":
+            out += it[1]
         else:
             out += bytes([OPS[it]])
     return out
 
 
+LEAVES = ("P", "S", "J")
 X = [("push", 1, 4), "CALLDATALOAD"]
 Y = [("push", 1, 36), "CALLDATALOAD"]
+W = [("push", 1, 68), "CALLDATALOAD"]     # third argument: conditions on it never interact with those on x, y
 
 
 def cond_code(c):
@@ -73,11 +89,27 @@ def cond_code(c):
         return Y + X + ["MUL", ("push", 1, c[1]), "EQ"]      # x * y == c
     if k == "mulodd":
         return [("push", 1, 1)] + Y + X + ["MUL", ("push", 1, 1), "AND", "EQ"]   # (x*y) & 1 == 1
+    if k == "weq":
+        return [("push", 1, c[1])] + W + ["EQ"]
+    if k == "wlt":
+        return [("push", 1, c[1])] + W + ["LT"]            # w < c
+    if k == "wmask":
+        return [("push", 1, c[2] & c[1]), ("push", 1, c[1])] + W + ["AND", "EQ"]
+    if k == "mulcomm":
+        return X + Y + ["MUL"] + Y + X + ["MUL", "EQ"]       # x*y == y*x: always true, not for the abstraction
+    if k == "divle":
+        return X + Y + X + ["DIV", "GT", "ISZERO"]           # not (x / y > x): always true, not for the abstraction
     raise ValueError(k)
 
 
-def cond_eval(c, x, y):
+def cond_eval(c, x, y, w=0):
     k = c[0]
+    if k == "weq":
+        return w == c[1]
+    if k == "wlt":
+        return w < c[1]
+    if k == "wmask":
+        return (w & c[1]) == (c[2] & c[1])
     if k == "ylt":
         return y < c[1]
     if k == "ygt":
@@ -94,19 +126,24 @@ def cond_eval(c, x, y):
         return (x * y) & M256 == c[1]
     if k == "mulodd":
         return (x * y) & 1 == 1
+    if k in ("mulcomm", "divle"):
+        return True
     raise ValueError(k)
 
 
 def tree_code(tree, prefix):
-    """tree = 'P' | 'S' | [cond, if_true, if_false]; returns items; leaf labels are numbered in order"""
+    """tree = 'P' (panic) | 'S' (stop) | 'J' (stuck: jump to a symbolic destination) | [cond, if_true, if_false];
+    returns items; leaf labels are numbered in order"""
     items = []
     leaves = []
 
     def go(t, path):
-        if t in ("P", "S"):
+        if t in LEAVES:
             leaves.append((path, t))
             if t == "S":
                 items.append("STOP")
+            elif t == "J":
+                items.extend(Y + X + ["ADD", "JUMP"])      # destination x + y: NotConcreteError, the path is stuck
             else:
                 items.extend([("push", 32, 0x4E487B71 << 224), "PUSH0", "MSTORE", ("push", 1, 1), ("push", 1, 4), "MSTORE", ("push", 1, 0x24), "PUSH0", "REVERT"])
             return
@@ -121,12 +158,12 @@ def tree_code(tree, prefix):
     return items, leaves
 
 
-def leaf_of(tree, x, y):
+def leaf_of(tree, x, y, w=0):
     path = ""
     t = tree
-    while t not in ("P", "S"):
+    while t not in LEAVES:
         c, a, b = t
-        if cond_eval(tuple(c), x, y):
+        if cond_eval(tuple(c), x, y, w):
             t, path = a, path + "1"
         else:
             t, path = b, path + "0"
@@ -138,7 +175,7 @@ def make_project(root, trees):
     from eth_hash.auto import keccak
 
     os.makedirs(os.path.join(root, "out", "T.sol"), exist_ok=True)
-    sigs = [f"check_{k}(uint256,uint256)" for k in range(len(trees))]
+    sigs = [f"check_{k}(uint256,uint256,uint256)" for k in range(len(trees))]
     sels = [keccak(s.encode())[:4] for s in sigs]
     items = ["PUSH0", "CALLDATALOAD", ("push", 1, 0xE0), "SHR"]
     for k, sel in enumerate(sels):
@@ -153,7 +190,7 @@ def make_project(root, trees):
     cr = asm([("push", 2, n), ("push", 2, 13), "PUSH0", "CODECOPY", ("push", 2, n), "PUSH0", "RETURN"])
     assert len(cr) == 13
     cr += rt
-    abi = [{"type": "function", "name": f"check_{k}", "inputs": [{"name": "x", "type": "uint256", "internalType": "uint256"}, {"name": "y", "type": "uint256", "internalType": "uint256"}], "outputs": [], "stateMutability": "nonpayable"} for k in range(len(trees))]
+    abi = [{"type": "function", "name": f"check_{k}", "inputs": [{"name": "x", "type": "uint256", "internalType": "uint256"}, {"name": "y", "type": "uint256", "internalType": "uint256"}, {"name": "w", "type": "uint256", "internalType": "uint256"}], "outputs": [], "stateMutability": "nonpayable"} for k in range(len(trees))]
     art = {
         "abi": abi,
         "bytecode": {"object": "0x" + cr.hex(), "sourceMap": "", "linkReferences": {}},
@@ -176,24 +213,240 @@ def make_project(root, trees):
     return bindir
 
 
+def subst_vars(items, V):
+    """the loaders of x, y, w (calldata words) replaced by other item sequences"""
+    out = []
+    i = 0
+    offs = {4: 0, 36: 1, 68: 2}
+    while i < len(items):
+        it = items[i]
+        if isinstance(it, tuple) and it[0] == "push" and it[1] == 1 and it[2] in offs and i + 1 < len(items) and items[i + 1] == "CALLDATALOAD":
+            out.extend(V[offs[it[2]]])
+            i += 2
+        else:
+            out.append(it)
+            i += 1
+    return out
+
+
+def _artifact(name, funcs, cr, rt, path):
+    from eth_hash.auto import keccak
+
+    return {
+        "abi": [{"type": "function", "name": n, "inputs": [{"name": f"a{i}", "type": t, "internalType": t} for i, t in enumerate(ins)],
+                 "outputs": [], "stateMutability": "nonpayable"} for n, ins in funcs],
+        "bytecode": {"object": "0x" + cr.hex(), "sourceMap": "", "linkReferences": {}},
+        "deployedBytecode": {"object": "0x" + rt.hex(), "sourceMap": "", "linkReferences": {}},
+        "methodIdentifiers": {f"{n}({','.join(ins)})": keccak(f"{n}({','.join(ins)})".encode())[:4].hex() for n, ins in funcs},
+        "metadata": {"compiler": {"version": "0.8.26"}, "output": {"devdoc": {"methods": {}}}},
+        "ast": {"absolutePath": path, "id": 1, "nodeType": "SourceUnit", "nodes": [{"nodeType": "ContractDefinition", "name": name, "contractKind": "contract", "abstract": False, "nodes": [], "id": 2}]},
+        "id": 0,
+    }
+
+
+def make_invariant_project(root, trees):
+    """One FunctionContext fed by several independent runs (the case in which nothing but halmos' own
+    bookkeeping keeps the conditions of a finished run -- and with them their z3 ids -- alive):
+
+        contract C { uint flag, s1, s2, s3;
+                     function set_k(uint a, uint b, uint c) { s1 = a; s2 = b; s3 = c; flag = k + 1; }    // one per tree
+                     function get() returns (flag, s1, s2, s3) }
+        contract T { C c;  function setUp() { c = new C(); }
+                     function invariant_ok() { (flag, s1, s2, s3) = c.get(); if (flag == k + 1) tree_k(s1, s2, s3); } }
+
+    With --invariant-depth 1 the invariant is run on the state after setUp and on the state after every set_k:
+    run k explores tree k over the symbolic arguments of that call; all runs share the function's unsat cores."""
+    from eth_hash.auto import keccak
+
+    def sel(sig):
+        return int.from_bytes(keccak(sig.encode())[:4], "big")
+
+    def creation(rt):
+        n = len(rt)
+        cr = asm([("push", 2, n), ("push", 2, 13), "PUSH0", "CODECOPY", ("push", 2, n), "PUSH0", "RETURN"])
+        assert len(cr) == 13
+        return cr + rt
+
+    def disp(funcs):
+        items = ["PUSH0", "CALLDATALOAD", ("push", 1, 0xE0), "SHR"]
+        for sig, lab in funcs:
+            items += ["DUP1", ("push", 4, sel(sig)), "EQ", ("ref", lab), "JUMPI"]
+        return items + ["PUSH0", "PUSH0", "REVERT"]
+
+    n = len(trees)
+    sets = [f"set_{k}(uint256,uint256,uint256)" for k in range(n)]
+    c = disp([(s, f"S{k}") for k, s in enumerate(sets)] + [("get()", "GET")])
+    for k in range(n):
+        c += [("label", f"S{k}"), "POP"] + X + [("push", 1, 1), "SSTORE"] + Y + [("push", 1, 2), "SSTORE"] + W + [("push", 1, 3), "SSTORE", ("push", 1, k + 1), "PUSH0", "SSTORE", "STOP"]
+    c += [("label", "GET"), "POP"]
+    for slot in range(4):
+        c += [("push", 1, slot), "SLOAD", ("push", 1, 0x20 * slot), "MSTORE"]
+    c += [("push", 1, 0x80), "PUSH0", "RETURN"]
+    c_rt = asm(c)
+    c_cr = creation(c_rt)
+
+    flag = [("push", 1, 0x20), "MLOAD"]
+    V = ([("push", 1, 0x40), "MLOAD"], [("push", 1, 0x60), "MLOAD"], [("push", 1, 0x80), "MLOAD"])
+    inv = [("label", "I"), "POP", ("push", 4, sel("get()")), ("push", 1, 0xE0), "SHL", "PUSH0", "MSTORE",
+           ("push", 1, 0x80), ("push", 1, 0x20), ("push", 1, 4), "PUSH0", "PUSH0", "SLOAD", "GAS", "STATICCALL", "POP"]
+    for k in range(n):
+        inv += flag + [("push", 1, k + 1), "EQ", ("ref", f"T{k}"), "JUMPI"]
+    inv += ["STOP"]
+    for k, t in enumerate(trees):
+        body, _ = tree_code(t, f"t{k}")
+        inv += [("label", f"T{k}")] + subst_vars(body, V)
+
+    def t_items(tail_off):
+        return (disp([("setUp()", "S"), ("invariant_ok()", "I")])
+                + [("label", "S"), "POP", ("push", 2, len(c_cr)), ("push", 2, tail_off), "PUSH0", "CODECOPY",
+                   ("push", 2, len(c_cr)), "PUSH0", "PUSH0", "CREATE", "PUSH0", "SSTORE", "STOP"]
+                + inv + [("raw", c_cr)])
+
+    off = len(asm(t_items(0))) - len(c_cr)
+    t_rt = asm(t_items(off))
+    assert t_rt[off:] == c_cr
+    os.makedirs(os.path.join(root, "out", "T.sol"), exist_ok=True)
+    os.makedirs(os.path.join(root, "out", "C.sol"), exist_ok=True)
+    with open(os.path.join(root, "out", "T.sol", "T.json"), "w") as f:
+        json.dump(_artifact("T", [("setUp", []), ("invariant_ok", [])], creation(t_rt), t_rt, "test/T.sol"), f)
+    with open(os.path.join(root, "out", "C.sol", "C.json"), "w") as f:
+        json.dump(_artifact("C", [(f"set_{k}", ["uint256"] * 3) for k in range(n)] + [("get", [])], c_cr, c_rt, "src/C.sol"), f)
+    with open(os.path.join(root, "foundry.toml"), "w") as f:
+        f.write("[profile.default]\n")
+    with open(os.path.join(root, "INVARIANT"), "w") as f:
+        f.write("1\n")
+    bindir = os.path.join(root, "bin")
+    os.makedirs(bindir, exist_ok=True)
+    fg = os.path.join(bindir, "forge")
+    with open(fg, "w") as f:
+        f.write("#!/bin/sh\nexit 0\n")
+    os.chmod(fg, 0o755)
+    return bindir
+
+
 # ----------------------------------------------------------------- child: halmos with monitors
 
-def child(project, cache, outfile):
+def child(project, cache, outfile, sync=False):
     import gc
     import threading
+    import time
 
     import halmos.__main__ as hm
     import halmos.sevm as sevm
     import halmos.solve as solve
 
-    state = {"fn": "setup", "ids": {}, "clashes": [], "hits": {}, "queries": {}, "results": []}
+    state = {"fn": "setup", "ids": {}, "clashes": [], "hits": {}, "queries": {}, "results": [],
+             "in_test": False, "in_assert": False, "consumers": [], "low": [], "cb_done": 0,
+             "assert_ids": {}, "probe_n": 0, "freed_reported": set(), "live_cores": lambda: [], "events": [], "qpid": {}}
     lock = threading.Lock()
+
+    # ---- the consumers of the solver, in the order run_test creates them (main thread)
+    orig_pc = hm.PathContext
+
+    # ---- the schedule: path taken (main thread) / look-up of the cache by a worker / callback of a worker, linearised by
+    # one lock held around the look-up and around the whole callback (so the logged order IS the order of reads and appends)
+    evlock = threading.RLock()
+
+    def PathContext(**kw):
+        pc = orig_pc(**kw)
+        if state["in_test"]:
+            q = kw["query"]
+            with evlock:
+                state["qpid"][id(q)] = (kw["path_id"], q)       # the query object is kept: its id() stays its own
+                state["events"].append(["path", kw["path_id"]])
+                state["consumers"].append({"pid": kw["path_id"], "kind": "assert" if state["in_assert"] else "stuck",
+                                           "ids": [str(i) for i in q.assertions],
+                                           "would_hit": bool(orig_check(q, [list(c) for c in kw["solving_ctx"].unsat_cores]))})
+        return pc
+
+    hm.PathContext = PathContext
+
+    # ---- every solver invocation (any thread): what was asked (path, refined?) and what came back
+    orig_low = solve.solve_low_level
+
+    def solve_low_level(path_ctx):
+        rec = {"pid": path_ctx.path_id, "refined": bool(path_ctx.is_refined)}
+        try:
+            out = orig_low(path_ctx)
+        except BaseException as e:
+            rec["exc"] = type(e).__name__
+            with lock:
+                state["low"].append(rec)
+            raise
+        res = str(out.result)
+        rec.update(result=res if res in ("sat", "unsat", "unknown") else "err",
+                   valid=(bool(out.model.is_valid) if out.model is not None else None),
+                   core=(None if out.unsat_core is None else [str(i) for i in out.unsat_core]))
+        with lock:
+            state["low"].append(rec)
+        return out
+
+    solve.solve_low_level = solve_low_level
+    hm.solve_low_level = solve_low_level
+
+    # ---- sync mode: the answer to an assertion query (and its callback) arrives before the next path is taken
+    orig_cb = hm.CounterexampleHandler._solve_end_to_end_callback
+
+    def callback(self, *a, **kw):
+        with evlock:
+            try:
+                return orig_cb(self, *a, **kw)
+            finally:
+                pc = kw.get("path_ctx")
+                state["events"].append(["cb", pc.path_id if pc is not None else -1])
+                with lock:
+                    state["cb_done"] += 1
+
+    hm.CounterexampleHandler._solve_end_to_end_callback = callback
+    orig_hav = hm.CounterexampleHandler.handle_assertion_violation
+
+    def handle_assertion_violation(self, *a, **kw):
+        n0 = len(self.submitted_futures)
+        state["in_assert"] = True
+        try:
+            orig_hav(self, *a, **kw)
+        finally:
+            state["in_assert"] = False
+        if sync and len(self.submitted_futures) > n0:
+            deadline = time.time() + 120
+            while time.time() < deadline:
+                with lock:
+                    if state["cb_done"] >= len(self.submitted_futures):
+                        break
+                time.sleep(0.002)
+
+    hm.CounterexampleHandler.handle_assertion_violation = handle_assertion_violation
     orig_to_smt2 = sevm.Path.to_smt2
+
+    def probe_freed():
+        """H2 at its root: z3 hands a released AST id out again (free list).  After a forced collection a batch of
+        fresh terms is allocated: if one of them receives the id of a condition that was serialised for an assertion
+        query of the function context still running (an id the cache may hold or be asked about), that condition has
+        been released and its id now denotes something else."""
+        import z3
+
+        watched = state["assert_ids"].get(state["fn"])
+        if not watched or not cache:     # without --cache-solver nobody ever compares ids
+            return
+        state["probe_n"] += 1
+        ps = [z3.Int(f"c16_probe_{state['probe_n']}_{i}") for i in range(NPROBE)]
+        got = {str(t.get_id()) for t in ps}
+        del ps
+        for i in sorted(got & watched.keys()):
+            if (state["fn"], i) not in state["freed_reported"]:
+                state["freed_reported"].add((state["fn"], i))
+                cores = [c for c in state["live_cores"]() if i in c]
+                state["clashes"].append({"kind": "id-released-and-recycled", "fn": state["fn"], "id": i, "was": watched[i][:300], "in_stored_core": bool(cores)})
 
     def to_smt2(self, args):
         gc.collect()          # halmos disables the cyclic gc; force it so that freed terms really go
+        probe_freed()
         q = orig_to_smt2(self, args)
         seen = state["ids"].setdefault(state["fn"], {})
+        if state["in_assert"]:
+            wa = state["assert_ids"].setdefault(state["fn"], {})
+            for t in self.conditions:
+                wa.setdefault(str(t.get_id()), t.sexpr())
         conds = list(self.conditions)
         if [str(t.get_id()) for t in conds] != list(q.assertions):
             state["clashes"].append({"kind": "ids-differ-from-conditions", "fn": state["fn"]})
@@ -209,7 +462,11 @@ def child(project, cache, outfile):
     orig_check = solve.check_unsat_cores
 
     def check_unsat_cores(query, cores):
-        r = orig_check(query, cores)
+        with evlock:
+            r = orig_check(query, cores)
+            known = state["qpid"].get(id(query))
+            if known is not None and known[1] is query:
+                state["events"].append(["start", known[0]])
         if r:
             with lock:
                 state["hits"][state["fn"]] = state["hits"].get(state["fn"], 0) + 1
@@ -220,8 +477,14 @@ def child(project, cache, outfile):
 
     def run_test(ctx):
         state["fn"] = ctx.info.name
-        res = orig_run_test(ctx)
+        state.update(in_test=True, consumers=[], low=[], cb_done=0, events=[], qpid={})
+        state["live_cores"] = lambda: [[str(i) for i in c] for c in ctx.solving_ctx.unsat_cores]
+        try:
+            res = orig_run_test(ctx)
+        finally:
+            state["in_test"] = False
         gc.collect()
+        # no probe here: what is released once the function context has done its last look-up cannot be asked about again
 
         def models(ms):
             out = []
@@ -237,14 +500,22 @@ def child(project, cache, outfile):
             "outputs": sorted(str(o.result) for o in ctx.solver_outputs),
             "valid": models(ctx.valid_counterexamples), "invalid": models(ctx.invalid_counterexamples),
             "cores": len(ctx.solving_ctx.unsat_cores),
+            "num_paths": list(res.num_paths) if res.num_paths else None,
+            "outs": [{"pid": o.path_id, "result": (str(o.result) if str(o.result) in ("sat", "unsat", "unknown") else "err"),
+                      "valid": (bool(o.model.is_valid) if o.model is not None else None),
+                      "core": (None if o.unsat_core is None else [str(i) for i in o.unsat_core])} for o in ctx.solver_outputs],
+            "final_cores": [[str(i) for i in c] for c in ctx.solving_ctx.unsat_cores],
+            "consumers": state["consumers"], "low": state["low"], "events": state["events"],
         })
         state["fn"] = "between-tests"
         return res
 
     hm.run_test = run_test
-    argv = ["--root", project, "--no-status", "--solver-timeout-assertion", "60000", "--solver-threads", "1"]
+    argv = ["--root", project, "--no-status", "--solver-timeout-assertion", "60000", "--solver-threads", "1" if sync else "2"]
     if cache:
         argv.append("--cache-solver")
+    if os.path.exists(os.path.join(project, "INVARIANT")):
+        argv += ["--invariant-depth", "1"]
     rc = None
     try:
         r = hm._main(argv)
@@ -259,14 +530,67 @@ def child(project, cache, outfile):
 
 # ----------------------------------------------------------------- parent
 
-POOL = [("ylt", 1), ("ylt", 2), ("ygt", 0), ("xeq", 3), ("xeq", 7), ("xlt", 9), ("mask", 3, 1), ("diveq", 5), ("diveq", 7), ("muleq", 6), ("mulodd",)]
+POOL = [("ylt", 1), ("ylt", 2), ("ygt", 0), ("xeq", 3), ("xeq", 7), ("xlt", 9), ("mask", 3, 1), ("diveq", 5), ("diveq", 7), ("muleq", 6), ("mulodd",),
+        ("mulcomm",), ("divle",)]
+ABSTRACTED = ("diveq", "muleq", "mulodd", "mulcomm", "divle")
 
 
 def gen_tree(r, depth, pool):
     if depth == 0 or (depth <= 2 and r.random() < 0.2):
-        return "P" if r.random() < 0.65 else "S"
+        u = r.random()
+        return "P" if u < 0.5 else ("J" if u < 0.75 else "S")
     c = list(r.choice(pool))
     return [c, gen_tree(r, depth - 1, pool), gen_tree(r, depth - 1, pool)]
+
+
+# conjunctions that are contradictory under the real mul/div and satisfiable for halmos' uninterpreted abstraction:
+# the branching solver lets the engine in, the refined assertion query is unsat, its core is what the cache stores
+GADGETS = [
+    [(("mulcomm",), False)],                              # x*y != y*x
+    [(("divle",), False)],                                # x / y > x
+    [(("ylt", 1), True), (("diveq", 5), True)],           # y == 0 and x / y == 5
+    [(("mask", 1, 0), True), (("mulodd",), True)],        # x even and x*y odd
+    [(("xlt", 4), True), (("diveq", 5), True)],           # x < 4 and x / y == 5
+]
+REGULAR = [("weq", 1), ("weq", 2), ("wlt", 5), ("wlt", 9), ("wmask", 3, 1), ("wmask", 6, 2), ("wmask", 8, 8)]
+
+
+def gen_gadget_tree(r, depth):
+    """a frame of ordinary conditions, one gadget, and below its contradictory side a subtree of ordinary
+    conditions whose leaves panic, get stuck or stop: the same stored core is met again by later paths of
+    every kind, in both exploration orders"""
+    sub = gen_tree(r, depth, r.sample(REGULAR, 4))
+    for cond, side in reversed(r.choice(GADGETS)):
+        other = gen_tree(r, r.choice([0, 1]), REGULAR)
+        sub = [list(cond), sub, other] if side else [list(cond), other, sub]
+    for _ in range(r.choice([0, 0, 1])):
+        other = gen_tree(r, r.choice([0, 1, 2]), POOL)
+        c = list(r.choice([("xlt", 9), ("ylt", 2), ("mask", 6, 2), ("ygt", 0)]))
+        sub = [c, sub, other] if r.random() < 0.5 else [c, other, sub]
+    return sub
+
+
+def without_stuck(tree, r):
+    if tree in LEAVES:
+        return r.choice(["P", "P", "S"]) if tree == "J" else tree
+    return [tree[0], without_stuck(tree[1], r), without_stuck(tree[2], r)]
+
+
+def invariant_corpus():
+    """runs of an invariant: refined-only contradictions whose cores are stored, without and with stuck paths"""
+    return [[["mulcomm"], "S", [["wlt", 9], "P", [["weq", 9], "P", "S"]]],
+            [["ylt", 1], [["diveq", 5], [["wmask", 3, 1], "P", "P"], "S"], "S"],
+            [["mulcomm"], "S", [["xlt", 9], "J", "P"]],
+            [["divle"], "P", [["wlt", 5], "P", "P"]]]
+
+
+def gen_project_trees(r, tier):
+    pool = r.sample(POOL, r.randint(3, 5))
+    if not any(c[0] in ABSTRACTED for c in pool):
+        pool.append(r.choice([("diveq", 5), ("mulcomm",), ("divle",)]))
+    trees = [gen_gadget_tree(r, r.choice([2, 3] if tier == "quick" else [3, 4])) for _ in range(2 if tier == "quick" else 3)]
+    trees.append(gen_tree(r, r.choice([3, 4, 4] if tier == "quick" else [4, 5, 5]), pool))
+    return trees
 
 
 def corpus_trees():
@@ -274,14 +598,25 @@ def corpus_trees():
     bad = lambda leaf: [["ylt", 1], [["diveq", 5], leaf, "S"], "S"]  # noqa: E731
     t0 = [["xlt", 9], [["xeq", 3], bad("P"), bad("P")], [["mask", 3, 1], bad("P"), [["xeq", 7], "P", "S"]]]
     t1 = [["ylt", 2], [["ygt", 0], [["xlt", 9], [["diveq", 5], "P", "S"], [["diveq", 5], "S", "P"]], [["diveq", 7], "P", [["diveq", 5], "P", "S"]]], [["mask", 1, 0], [["mulodd"], "P", "S"], [["mulodd"], "P", "S"]]]
-    return [t0, t1]
+    # stuck paths below a condition that is contradictory only after refinement, next to an assertion path with
+    # the same condition (both exploration orders): the witness of C16_refined_core_not_abstract_refuted.  The
+    # assertion query is unsat once refined and its core is stored; the stuck path contains that core and is
+    # feasible as posed -- it must be reported ([ERROR] stuck) with and without the cache
+    t2 = [["mulcomm"], "S", [["xlt", 9], "J", "P"]]
+    t3 = [["mulcomm"], "S", [["xlt", 9], "P", "J"]]
+    t4 = [["ylt", 1], [["diveq", 5], [["xeq", 3], "P", [["xeq", 7], "J", [["mask", 3, 1], "J", "P"]]], "S"], "S"]
+    t5 = [["divle"], [["xlt", 9], "S", "J"], [["xlt", 9], [["xeq", 3], "J", "P"], "J"]]
+    return [t0, t1, t2, t3, t4, t5]
 
 
-def run_child(bindir, project, cache, timeout):
+def run_child(bindir, project, cache, timeout, sync=False):
+    import time
+
+    t0 = time.time()
     fd, out = tempfile.mkstemp(suffix=".json")
     os.close(fd)
     env = dict(os.environ, PATH=bindir + os.pathsep + os.environ.get("PATH", ""))
-    p = subprocess.run([sys.executable, "-m", "harness.props.C16_e2e", "--child", project, "1" if cache else "0", out],
+    p = subprocess.run([sys.executable, "-m", "harness.props.C16_e2e", "--child", project, "1" if cache else "0", out, "1" if sync else "0"],
                        capture_output=True, text=True, env=env, timeout=timeout, cwd=os.path.dirname(os.path.dirname(os.path.dirname(os.path.abspath(__file__)))))
     try:
         with open(out) as f:
@@ -290,38 +625,188 @@ def run_child(bindir, project, cache, timeout):
         res = {"error": (p.stdout[-1500:] + p.stderr[-1500:])}
     finally:
         os.unlink(out)
+    res["wall"] = round(time.time() - t0, 1)
     return res
 
 
-def run_e2e(rep, tier, r, fail):
-    nproj = 2 if tier == "quick" else 6
+EXIT_OF_VERDICT = {0: 1, 1: 5, 2: 2, 3: 3, 4: 4, 5: 0}   # model verdict code -> halmos Exitcode (FAIL, EXCEPTION, TIMEOUT, STUCK, REVERT_ALL, PASS)
+
+
+def reply_of_low(l):
+    """a record of the child's solve_low_level log -> reply dict of the model encoding"""
+    if l is None or "exc" in l or l["result"] == "err":
+        return {"kind": "err"}
+    if l["result"] == "sat":
+        return {"kind": "sat", "valid": bool(l["valid"]), "m": 0}
+    if l["result"] == "unsat":
+        return {"kind": "unsat", "core": l["core"]}
+    return {"kind": "unknown"}
+
+
+def model_test_call(res, cache):
+    """one finished test of a sync run -> the c16_test call and what the implementation showed"""
+    from harness.props.C16 import enc_reply, enc_strlist
+
+    lows = {}
+    for l in res["low"]:
+        lows.setdefault((l["pid"], l["refined"]), l)
+    arg = []
+    n = 0
+    for c in res["consumers"]:
+        la, lr = lows.get((c["pid"], False)), lows.get((c["pid"], True))
+        arg += [0 if c["kind"] == "assert" else 1] + enc_strlist(c["ids"]) + enc_reply(reply_of_low(la)) + enc_reply(reply_of_low(lr)) + [1 if lr is not None else 0]
+        n += 1
+    for _ in range(res["num_paths"][1]):
+        arg += [2] + enc_strlist([]) + [5, 5, 0]
+        n += 1
+    impl = {
+        "exit": res["exitcode"], "stuck": res["num_paths"][2], "normal": res["num_paths"][1],
+        "outs": [reply_of_low(o) for o in res["outs"]],
+        "skipped": [not any(l["pid"] == c["pid"] for l in res["low"]) for c in res["consumers"]],
+        "cores": res["final_cores"],
+    }
+    return ("c16_test", [1 if cache else 0, n] + arg), impl
+
+
+def model_sched_call(res, cache):
+    """one finished test of a racing run -> the c16_sched call (the schedule the implementation went through: paths
+    taken, look-ups and callbacks in the order the child linearised them) and what the implementation showed"""
+    (_, targ), impl = model_test_call(res, cache)
+    index = {c["pid"]: i for i, c in enumerate(res["consumers"])}
+    evs = []
+    for kind, pid in res["events"]:
+        if pid in index:
+            evs += [{"path": 0, "start": 1, "cb": 2}[kind], index[pid]]
+    for i in range(res["num_paths"][1]):
+        evs += [0, len(res["consumers"]) + i]
+    impl = {k: impl[k] for k in ("exit", "stuck", "normal", "outs", "cores")}
+    impl["pending"] = 0
+    return ("c16_sched", [targ[0], len(evs) // 2] + evs + targ[1:]), impl
+
+
+def is_sequential(res):
+    """did every assertion query get its answer and its callback before the next path was taken (what sync mode aims at;
+    a solver slower than the child's patience leaves a racing schedule, which is replayed as such)"""
+    kinds = {c["pid"]: c["kind"] for c in res["consumers"]}
+    ev = [(k, p) for k, p in res["events"] if p in kinds]
+    i = 0
+    while i < len(ev):
+        k, p = ev[i]
+        if k != "path":
+            return False
+        if kinds[p] == "assert":
+            if ev[i + 1:i + 3] != [("start", p), ("cb", p)]:
+                return False
+            i += 3
+        else:
+            i += 1
+    return True
+
+
+def decode_model_sched(v):
+    from harness.props.C16 import dec_reply, dec_strs
+
+    out = {"exit": EXIT_OF_VERDICT.get(v[0], -1), "stuck": v[1], "normal": v[2]}
+    i = 4
+    outs = []
+    for _ in range(v[3]):
+        rr, i = dec_reply(v, i)
+        outs.append(rr)
+    out["outs"] = outs
+    out["pending"] = v[i]
+    nc = v[i + 1]
+    i += 2
+    cores = []
+    for _ in range(nc):
+        c, i = dec_strs(v, i)
+        cores.append(c)
+    out["cores"] = cores
+    return out
+
+
+def decode_model_test(v):
+    from harness.props.C16 import dec_reply, dec_strs
+
+    out = {"exit": EXIT_OF_VERDICT[v[0]], "stuck": v[1], "normal": v[2]}
+    i = 4
+    outs = []
+    for _ in range(v[3]):
+        rr, i = dec_reply(v, i)
+        outs.append(rr)
+    out["outs"] = outs
+    n = v[i]
+    out["skipped"] = [bool(x) for x in v[i + 1:i + 1 + n]]
+    i += 1 + n
+    nc = v[i]
+    i += 1
+    cores = []
+    for _ in range(nc):
+        c, i = dec_strs(v, i)
+        cores.append(c)
+    out["cores"] = cores
+    return out
+
+
+def replay_case(case):
+    """re-runs the fabricated project of an e2e failure with the cache on and off and prints what run_test reported"""
+    tmp = tempfile.mkdtemp(prefix="c16_replay_")
+    trees = case["trees"]
+    bindir = (make_invariant_project if case.get("invariant") else make_project)(tmp, trees)
+    for k, t in enumerate(trees):
+        print(f"  tree {k}: {t}")
+    for cache in (True, False):
+        o = run_child(bindir, tmp, cache, 600, case.get("sync", True))
+        if "error" in o:
+            print("  cache", "on " if cache else "off", "halmos failed:", o["error"][-400:])
+            continue
+        print("  cache", "on " if cache else "off", "clashes:", o["clashes"][:4])
+        for x in o["results"]:
+            stuck = [c["pid"] for c in x["consumers"] if c["kind"] == "stuck"]
+            asked = sorted({l["pid"] for l in x["low"]})
+            print(f"    {x['name']}: exit {x['exitcode']} paths (total, normal, stuck) {x['num_paths']} outputs {x['outputs']} stored cores {x['final_cores']}"
+                  f" stuck-path queries {stuck} solver asked for paths {asked}")
+
+
+def run_e2e(rep, tier, r, fail, m=None):
+    # quick: the corpus and a random project in sync mode, a random project with the solver racing the engine
+    # + invariant projects (sync): one function context fed by several independent runs, the id free-list probe on
+    nproj = 3 if tier == "quick" else 12
+    ninv = 1 if tier == "quick" else 4
     projects = []
     tmp = tempfile.mkdtemp(prefix="c16_e2e_")
-    for k in range(nproj):
+    for k in range(nproj + ninv):
+        root = os.path.join(tmp, f"p{k}")
+        if k >= nproj:
+            # a stuck path is kept in run_test's `stuck` list (Exec, path, conditions) until the verdict: runs without
+            # stuck leaves are the ones whose conditions nothing but halmos' memo tables keeps alive
+            trees = (invariant_corpus() if k == nproj else []) + [without_stuck(gen_gadget_tree(r, r.choice([2, 3])), r) if j % 2 == 0 else gen_gadget_tree(r, r.choice([2, 3]))
+                                                                   for j in range(2 if tier == "quick" else 4)]
+            bindir = make_invariant_project(root, trees)
+            projects.append((root, bindir, trees, True))
+            continue
         if k == 0:
             trees = corpus_trees()
         else:
-            pool = r.sample(POOL, r.randint(3, 5))
-            if not any(c[0] in ("diveq", "muleq", "mulodd") for c in pool):
-                pool.append(("diveq", 5))
-            trees = [gen_tree(r, r.choice([3, 4, 4] if tier == "quick" else [4, 5, 5]), pool) for _ in range(2 if tier == "quick" else 3)]
-        root = os.path.join(tmp, f"p{k}")
+            trees = gen_project_trees(r, tier)
         bindir = make_project(root, trees)
-        projects.append((root, bindir, trees))
-    jobs = [(b, p, c) for p, b, _ in projects for c in (True, False)]
+        projects.append((root, bindir, trees, k % 3 != 2))
+    jobs = [(b, p, c, sy) for p, b, _, sy in projects for c in (True, False)]
     with ThreadPoolExecutor(min(12, len(jobs))) as ex:
-        outs = list(ex.map(lambda j: run_child(j[0], j[1], j[2], 280 if tier == "quick" else 900), jobs))
-    tot_hits = tot_q = tot_ids = 0
-    for k, (root, _, trees) in enumerate(projects):
+        outs = list(ex.map(lambda j: run_child(j[0], j[1], j[2], 280 if tier == "quick" else 900, j[3]), jobs))
+    tot_hits = tot_q = tot_ids = tot_stuck = tot_model = 0
+    scenario = False
+    mcalls, mimpl, mwhere = [], [], []
+    for k, (root, _, trees, sync) in enumerate(projects):
         on, off = outs[2 * k], outs[2 * k + 1]
         hits = sum((on.get("hits") or {}).values())
         tot_hits += hits
         tot_q += sum((on.get("queries") or {}).values())
         tot_ids += sum((on.get("ids") or {}).values())
-        rep.count("case_kind", "e2e")
+        invariant = k >= nproj
+        rep.count("case_kind", "e2e:" + ("invariant" if invariant else "sync" if sync else "racing"))
         rep.count("e2e_hits", min(hits, 5))
-        rep.case({"kind": "e2e", "trees": trees}, nontrivial=hits > 0)
-        case = {"kind": "e2e", "trees": trees}
+        rep.case({"kind": "e2e", "trees": trees, "sync": sync, "invariant": invariant}, nontrivial=hits > 0)
+        case = {"kind": "e2e", "trees": trees, "sync": sync, "invariant": invariant}
         if "error" in on or "error" in off:
             fail("broken-tie", f"halmos run on fabricated project {k} failed: {(on.get('error') or off.get('error'))[-600:]}", case)
             continue
@@ -332,25 +817,50 @@ def run_e2e(rep, tier, r, fail):
             fail("failing-input", "cache hits although --cache-solver is off", case, sig={"observable": "cache-when-off"})
         ra = {x["name"]: x for x in on["results"]}
         rb = {x["name"]: x for x in off["results"]}
-        if set(ra) != set(rb) or len(ra) != len(trees):
+        if set(ra) != set(rb) or len(ra) != (1 if invariant else len(trees)):
             fail("broken-tie", f"project {k}: tests run {sorted(ra)} vs {sorted(rb)}", case)
             continue
         for name in sorted(ra):
-            t = trees[int(name.split("_")[1])]
+            t = trees if invariant else trees[int(name.split("_")[1])]
             a, b_ = ra[name], rb[name]
+            tcase = dict(case, test=name, tree=t)
 
             def leaves(res, name=name, t=t):
                 out = set()
+                if invariant:      # the model of an invariant counterexample names the arguments of the call sequence
+                    return {("n", "P")} if res["valid"] + res["invalid"] else set()
                 for mdl in res["valid"] + res["invalid"]:
-                    x, y = mdl.get("x", 0), mdl.get("y", 0)
-                    out.add(leaf_of(t, x, y))
+                    out.add(leaf_of(t, mdl.get("x", 0), mdl.get("y", 0), mdl.get("w", 0)))
                 return out
 
             la, lb = leaves(a), leaves(b_)
             for mode, ls in (("on", la), ("off", lb)):
                 wrong = [l for l in ls if l[1] != "P"]
                 if wrong:
-                    fail("broken-tie", f"project {k} {name} (cache {mode}): a counterexample does not reach a Panic leaf: {wrong}", case)
+                    fail("broken-tie", f"project {k} {name} (cache {mode}): a counterexample does not reach a Panic leaf: {wrong}", tcase)
+            # ---- the stuck paths: confirmed by the solver on the query as posed, with and without the cache
+            stuck_a, stuck_b = a["num_paths"][2], b_["num_paths"][2]
+            tot_stuck += stuck_b
+            rep.count("e2e_stuck_paths", min(stuck_b, 4))
+
+            def stuck_gave_up(res):
+                pids = {c["pid"] for c in res["consumers"] if c["kind"] == "stuck"}
+                return any(l["pid"] in pids and ("exc" in l or l["result"] in ("unknown", "err")) for l in res["low"])
+
+            for c in a["consumers"]:
+                if c["kind"] == "stuck" and c["would_hit"]:
+                    rep.count("e2e_stuck_path_contains_stored_core", name)
+                    if any(l["pid"] == c["pid"] and not l["refined"] and l.get("result") == "sat" for l in a["low"]):
+                        scenario = True
+            if stuck_a != stuck_b:
+                if stuck_gave_up(a) or stuck_gave_up(b_):
+                    rep.count("e2e_solver_gave_up_on_stuck_path", name)
+                else:
+                    dropped = [c for c in a["consumers"] if c["kind"] == "stuck" and not any(l["pid"] == c["pid"] for l in a["low"])]
+                    fail("failing-input", f"project {k} {name}: {stuck_b} stuck path(s) reported without the cache (exit {b_['exitcode']}), {stuck_a} with it (exit {a['exitcode']})"
+                         + (f"; with the cache the feasibility query of stuck path(s) {[c['pid'] for c in dropped]} never reached the solver (ids {[c['ids'] for c in dropped]}, cores {a['final_cores']})" if dropped else "")
+                         + f"; tree {t}", tcase, sig={"observable": "on-vs-off-e2e", "what": "stuck-paths"})
+                    continue
             timeouts_off = b_["outputs"].count("unknown") + b_["outputs"].count("err")
             timeouts_on = a["outputs"].count("unknown") + a["outputs"].count("err")
             # the number of `unsat` outputs is not compared: halmos' 1 ms branching timeout makes the set of
@@ -368,12 +878,38 @@ def run_e2e(rep, tier, r, fail):
                     rep.count("e2e_solver_gave_up_with_cache", name)
                     continue
                 fail("failing-input", f"project {k} {name}: verdict/counterexamples differ: cache on exit={a['exitcode']} outputs={a['outputs']} leaves={sorted(la)}; cache off exit={b_['exitcode']} outputs={b_['outputs']} leaves={sorted(lb)}",
-                     dict(case, test=name), sig={"observable": "on-vs-off-e2e"})
+                     tcase, sig={"observable": "on-vs-off-e2e"})
+            # ---- sync runs are sequential histories: the model's test_run on the replies the implementation saw
+            # racing runs (two workers): the schedule the child linearised, through the model's sched_run
+            if m is not None:
+                for cache, res in ((True, a), (False, b_)):
+                    seq = sync and is_sequential(res)
+                    if sync and not seq:
+                        rep.count("e2e_sync_not_reached", name)
+                    call, impl = model_test_call(res, cache) if seq else model_sched_call(res, cache)
+                    mcalls.append(call)
+                    mimpl.append(impl)
+                    mwhere.append((k, name, cache, tcase))
+    if mcalls:
+        for (k, name, cache, tcase), impl, mv in zip(mwhere, mimpl, m.parallel_batch(mcalls)):
+            tot_model += 1
+            mo = (decode_model_test(mv) if "skipped" in impl else decode_model_sched(mv)) if mv else None
+            if mo != impl:
+                diff = sorted(key for key in impl if mo is None or mo.get(key) != impl[key])
+                fail("broken-tie", f"project {k} {name} (cache {'on' if cache else 'off'}): run_test and the model's {'test_run' if 'skipped' in impl else 'sched_run'} differ in {diff}: implementation {impl}, model {mo}",
+                     dict(tcase, cache=cache, implementation=impl, model=mo))
+    rep.coverage["L3_child_seconds"] = [o.get("wall") for o in outs]
     rep.coverage["L3_queries"] = tot_q
     rep.coverage["L3_cache_hits"] = tot_hits
     rep.coverage["L3_ids_monitored"] = tot_ids
+    rep.coverage["L3_stuck_paths_confirmed"] = tot_stuck
+    rep.coverage["L3_tests_replayed_in_model"] = tot_model
+    rep.coverage["refined_core_witness_replayed_on_implementation"] = scenario
     if tot_hits == 0:
         fail("broken-tie", "no cache hit in any end-to-end run (generator does not exercise the cache)", {"kind": "e2e"})
+    if not scenario:
+        fail("broken-tie", "the witness of C16_refined_core_not_abstract_refuted is not exercised: no stuck path that contains a stored (refined) core "
+             "and is confirmed feasible by the solver in any end-to-end run", {"kind": "e2e", "trees": projects[0][2]})
     import shutil
 
     shutil.rmtree(tmp, ignore_errors=True)
@@ -381,4 +917,4 @@ def run_e2e(rep, tier, r, fail):
 
 if __name__ == "__main__":
     if len(sys.argv) >= 5 and sys.argv[1] == "--child":
-        child(sys.argv[2], sys.argv[3] == "1", sys.argv[4])
+        child(sys.argv[2], sys.argv[3] == "1", sys.argv[4], len(sys.argv) > 5 and sys.argv[5] == "1")
